@@ -241,7 +241,8 @@ def match_packages(
             raise KeywordNoMatch(f"incorrect keywords: {' '.join(sorted(unknown))}")
 
         if not keywords:
-            keywords = list(cc_arches)
+            # only what the repository knows: the cc list is the caller's
+            keywords = [x for x in cc_arches if x in valid_arches]
         elif cc_arches:
             keywords = [x for x in keywords if x in cc_arches]
             # the line is no longer addressed to anyone
